@@ -126,3 +126,58 @@ func (p *Parsed) Line(pos token.Pos) string {
 	}
 	return ""
 }
+
+// EnumerateWorlds runs body once per valuation the oracle discovers (for analyses that drive the interpreter directly).
+func (s *Static) EnumerateWorlds(cfg *Config, body func(w *World) error) (runs int, truncated bool, err error) {
+	or := NewOracle(cfg.FixedChoices)
+	for {
+		w := s.NewWorld(cfg, or)
+		if e := body(w); e != nil && err == nil {
+			err = e
+		}
+		runs++
+		if cfg.MaxRuns > 0 && runs >= cfg.MaxRuns {
+			return runs, or.Next(), err
+		}
+		if !or.Next() {
+			return runs, false, err
+		}
+	}
+}
+
+// RunGoFunc interprets the package-level function rel.name over abstract arguments and returns the lines an
+// interpreted codewriter emitted during the call.
+func (w *World) RunGoFunc(rel, name string, args ...Value) ([]string, error) {
+	pk := w.Prog.Pkg(rel)
+	if pk == nil {
+		return nil, fmt.Errorf("package %s missing", rel)
+	}
+	fn, ok := pk.Types.Scope().Lookup(name).(*types.Func)
+	if !ok {
+		return nil, fmt.Errorf("function %s.%s missing", rel, name)
+	}
+	before := len(w.Emitted)
+	_, err := w.CallGo(fn, nil, args, 0)
+	if err != nil {
+		return nil, err
+	}
+	return append([]string(nil), w.Emitted[before:]...), nil
+}
+
+// MkRWCtx exposes the ReadWriteContext model for a golang.Field object.
+func (w *World) MkRWCtx(f *Obj) (v Value, err error) {
+	defer func() {
+		if r := recover(); r != nil {
+			if e, ok := r.(execError); ok {
+				err = e.err
+				return
+			}
+			panic(r)
+		}
+	}()
+	x := &Exec{W: w}
+	return x.mkRWCtx(f), nil
+}
+
+// Valuation returns the oracle's current valuation string.
+func (w *World) Valuation() string { return w.Or.ValuationString() }
